@@ -256,7 +256,11 @@ func (d *Driver) Close() error {
 		d.Transport.Args.Port,
 	)
 
+	util.Yield("nc.close.done")
+
 	d.done <- true
+
+	util.Yield("nc.close.chan")
 
 	err := d.Channel.Close()
 	if err != nil {
